@@ -29,7 +29,7 @@ ASSUMPTIONS = [
     'binned wavelength width = 10000 * wavenumber width / centre^2 (first-order conversion at the bin centre, as used for observations)',
     'the reload clause compares constructor-level parameters that the writers store; opacities stay registered in the caches between write and reload',
 ]
-REQUIRED = {'part:retrieval': 0.04, 'part:dict': 0.08, 'part:spectrum': 0.08, 'part:model': 0.08}
+REQUIRED = {'native-points-on-bin-edges': 0.03, 'part:retrieval': 0.04, 'part:dict': 0.08, 'part:spectrum': 0.08, 'part:model': 0.08}
 # coverage-guided extra (thorough tier): pure-Python taurex modules on this property's path, instrumented by atheris
 FUZZ = {'include': ['taurex.output', 'taurex.util.output', 'taurex.util.hdf5', 'taurex.util.util', 'taurex.binning'], 'runs': 8000, 'workers': 4}
 
@@ -275,7 +275,7 @@ def check_spectrum(out, c, tmp):
     want_tau_native = c['size'] == 'heavy'
     want_tau_binned = c['size'] in ('heavy', 'light') and kind != 'native'
 
-    def judge(res_, sfx):
+    def judge(res_, sfx, b=b, centres=centres, bw=(bw if kind != 'native' else None), nb=nb):
         native = np.asarray(res_[0], dtype=float)
         spec = np.asarray(res_[1], dtype=float)
         with np.errstate(all='ignore'):
@@ -326,6 +326,19 @@ def check_spectrum(out, c, tmp):
     res2 = (native * k + 0.37 * (native[-1] - native[0]) / len(native), spec[::-1].copy(),
             np.asarray(res[2])[:, ::-1].copy(), res[3])
     judge(res2, ',reuse')
+    # native points lying exactly on bin edges (a native grid on whole wavenumbers, bins between every other point):
+    # whichever bin such a point is counted in, the stored spectrum is still the binner applied to the stored native one
+    n3 = len(native)
+    if kind in ('simple', 'flux') and n3 >= 5:
+        out.cls('native-points-on-bin-edges')
+        nat3 = 1000.0 + np.arange(n3)
+        nb3 = (n3 - 1) // 2
+        cen3 = nat3[0] + 1.0 + 2.0 * np.arange(nb3)
+        if nb3 >= 2:
+            b3 = SimpleBinner(cen3.copy()) if kind == 'simple' else FluxBinner(cen3.copy())
+            sp3 = spec * (1.0 + 0.37 * np.cos(1.3 * np.arange(n3)))
+            res3 = (nat3, sp3, np.asarray(res[2]).copy(), res[3])
+            judge(res3, ',edge-ties', b=b3, centres=cen3, bw=midpoint_widths(cen3)[1], nb=nb3)
     return bool(want_tau_binned)
 
 
